@@ -35,6 +35,7 @@ def build(spec: Dict[str, Any]):
     params = m['params']
     view = m['flavour'] == 'view'
     parts: List[str] = ['self'] if view else []
+    ns_defaults: Dict[str, Any] = {}
     star = False
     for p in params:
         if p['kind'] == 'KO' and not star:
@@ -44,11 +45,15 @@ def build(spec: Dict[str, Any]):
         if p.get('ann'):
             src += ': ' + p['ann']
         if 'default' in p:
-            src += ' = ' + repr(p['default']['value'])
+            if p['default'].get('sentinel'):
+                ns_defaults[f"_SENTINEL_{p['name']}"] = object()    # a default that is not JSON-serialisable
+                src += f" = _SENTINEL_{p['name']}"
+            else:
+                src += ' = ' + repr(p['default']['value'])
         parts.append(src)
     body = "return 1"
     validator = validators.BaseValidator(exclude_param=exclude_pred) if m['excluded'] else None
-    ns: Dict[str, Any] = {'ViewMixin': pjrpc.server.ViewMixin, 'Optional': Optional, 'List': List}
+    ns: Dict[str, Any] = {'ViewMixin': pjrpc.server.ViewMixin, 'Optional': Optional, 'List': List, **ns_defaults}
     reg = pjrpc.server.MethodRegistry()
     ctx_name = next((p['name'] for p in params if p.get('ctx')), None)
     if view:
@@ -80,7 +85,7 @@ def signatures(n: int) -> Iterator[List[Dict[str, Any]]]:
             for i, (k, d) in enumerate(zip(kinds, defaults)):
                 p: Dict[str, Any] = {'name': f'p{i}', 'kind': k}
                 if d:
-                    p['default'] = {'value': i}
+                    p['default'] = {'value': i} if (i + n) % 2 else {'sentinel': True}
                 params.append(p)
             if hm.valid_order([{**p, 'default': {'value': 0}} if 'default' in p else p for p in params]):
                 yield params
@@ -122,7 +127,7 @@ class C17(Check):
     chunk = 150
     rule = (
         "cases: (a) enumerated: every signature of <= 2 (quick) / <= 3 (thorough) parameters over positional-or-keyword / keyword-only x with / "
-        "without defaults, x context parameter designations (none, by name at each positional position, keyword-only, view constructor) x "
+        "without defaults (JSON values and non-JSON-serialisable sentinel objects), x context parameter designations (none, by name at each positional position, keyword-only, view constructor) x "
         "exclusion predicate on/off (an extra defaulted 'dep_' parameter, excluded in the extractor and in the validator) x function / view "
         "method, x the same function registered a second time without context designation (probed in both orders); (b) Hypothesis: signatures of up to 4 parameters with annotations. For each: the OpenAPI request schema and the OpenRPC params "
         "list are generated with PydanticSchemaExtractor, and ALL params objects over subsets of (documented names + one undocumented name + "
